@@ -17,6 +17,7 @@ let dispatch (v : t) : t =
   | L (A "c14" :: args) -> Glue_c14.handle args
   | L (A "c10" :: args) -> Glue_c10.handle args
   | L (A "compile" :: args) -> Glue_c99_compile.handle args
+  | L (A "report" :: args) -> Glue_c99_report.handle args
   | _ -> raise (Parse_error "unknown property")
 
 let () =
